@@ -471,14 +471,21 @@ def pow_symm(A, m):
     """
     return symmetric_matrix_function(A, lambda x: np.power(x, m))
 
-# This function loses precision when lam1 -> lam2.
-# Please replace with a numerically stable implmentation if you know how!
 def _pow_relative_difference(lam1, lam2, m):
     lams = np.array([lam1, lam2])
     i = np.argsort(np.abs(lams))
     lam_small, lam_big = lams[i]
     arg = lam_small/lam_big
-    return lam_big**(m-1)*(arg**m - 1)/(arg - 1)
+    # (arg**m - 1)/(arg - 1) loses all precision as arg -> 1. There, write it as
+    # expm1(m*log1p(x))/x with x = arg - 1, which is insensitive to the rounding of x.
+    nearOne = arg > 0.5
+    x = np.where(nearOne, arg - 1.0, -0.25)
+    xIsZero = x == 0.0
+    xSafe = np.where(xIsZero, -0.25, x)
+    ratioNear = np.where(xIsZero, m, np.expm1(m*np.log1p(xSafe))/xSafe)
+    argFar = np.where(nearOne, 0.25, arg)
+    ratioFar = (argFar**m - 1)/(argFar - 1)
+    return lam_big**(m-1)*np.where(nearOne, ratioNear, ratioFar)
 
 @pow_symm.defjvp
 def _pow_symm_jvp(primals, tangents):
